@@ -17,7 +17,7 @@ env.bootstrap()
 from yowsup.layers import YowLayer
 from yowsup.stacks.yowstack import YowStack
 from yowsup.layers.noise.layer_noise_segments import YowNoiseSegmentsLayer
-from vf.explore.bfs import bfs
+from vf.explore.bfs import bfs, simple_state
 
 PROPERTY = "C05"
 LEVEL = "model_checking"
@@ -87,7 +87,9 @@ def explore_stream(frames, chunk_sizes_at, label):
         return chunk_sizes_at(s.pos, L - s.pos)
 
     def canon(s):
-        return (s.pos, bytes(s.seg._read_buffer), len(s.top.got), s.err)
+        # every plain-data attribute of the real layer, not only the buffer: histories are merged only when the
+        # layer holds no state that tells them apart (a remembered frame size, a flag, ...)
+        return (s.pos, simple_state(s.seg), len(s.top.got), s.err)
 
     def check(s, hist):
         out = []
@@ -157,6 +159,82 @@ def run_recv_long(spec):
 
     res, L = explore_stream(frames, sizes, "long")
     return (frame_lens, L, res.states, res.transitions, res.violations)
+
+
+def _compositions(n):
+    """all ways to cut n bytes into non-empty chunks"""
+    if n == 0:
+        yield []
+        return
+    for first in range(1, n + 1):
+        for rest in _compositions(n - first):
+            yield [first] + rest
+
+
+def check_reset_during_delivery(spec):
+    """A new connection is announced (the layer's reset) while frame k of the old stream is being handed upward -
+    e.g. the handler of that frame, or another thread, reconnects.  Whatever was left of the old connection, the
+    new connection's stream must be framed from a clean state: from its first byte on exactly its frames come out."""
+    old_lens, tail, k, old_chunks, new_lens = spec
+    from yowsup.layers import YowLayerEvent
+    from yowsup.layers.network.layer import YowNetworkLayer
+    old_frames = [payload(i, n) for i, n in enumerate(old_lens)]
+    old_stream = b"".join(ref_frame(f) for f in old_frames) + ref_frame(payload(9, 5))[:tail]
+    new_frames = [payload(20 + i, n) for i, n in enumerate(new_lens)]
+    new_stream = b"".join(ref_frame(f) for f in new_frames)
+    vs = []
+    for new_chunks in _compositions(len(new_stream)):
+        stack, bot, seg, top = make(True)
+        st = {"n": 0, "reset_at": None}
+        orig = top.receive
+
+        def receive(data, st=st, seg=seg, top=top, orig=orig):
+            orig(data)
+            if st["reset_at"] is None and st["n"] == k:
+                st["reset_at"] = len(top.got)
+                seg.onEvent(YowLayerEvent(YowNetworkLayer.EVENT_STATE_CONNECTED))
+            st["n"] += 1
+        top.receive = receive
+        case = {"reset_during_delivery": {"old_frames": old_lens, "old_tail": tail, "reset_in_frame": k,
+                                          "old_chunks": old_chunks, "new_frames": new_lens, "new_chunks": new_chunks}}
+        try:
+            p = 0
+            for n in old_chunks:
+                seg.receive(old_stream[p:p + n])
+                p += n
+            if st["reset_at"] is None:
+                break               # this old chunking never delivered frame k: nothing to check
+            mark = len(top.got)
+            p = 0
+            for n in new_chunks:
+                seg.receive(new_stream[p:p + n])
+                p += n
+        except Exception as e:
+            vs.append(("C05:reset-raises", "segments layer raised: %s: %s" % (type(e).__name__, e), case, None))
+            break
+        got_new = [bytes(g) for g in top.got[mark:]]
+        if got_new != new_frames:
+            vs.append(("C05:reset-stale-bytes", "after a connection reset that arrived while a frame was being handed upward, the new "
+                       "connection's stream was not framed from a clean state", case,
+                       {"got": got_new[:4], "expected": new_frames[:4]}))
+            break
+        if len(seg._read_buffer):
+            vs.append(("C05:reset-residue", "bytes left buffered after the new connection's last frame", case, bytes(seg._read_buffer)))
+            break
+    return vs
+
+
+def reset_specs(quick):
+    out = []
+    for old_lens in ([1, 2], [2, 1, 1]) if quick else ([1, 2], [2, 1, 1], [1, 1], [3, 2, 1]):
+        for tail in (0, 2, 4):
+            L = sum(3 + n for n in old_lens) + tail
+            for k in range(len(old_lens)):
+                olds = [[L]] + [[a, L - a] for a in range(1, L)]
+                for oc in olds:
+                    for new_lens in ([1, 2],) if quick else ([1, 2], [2], [1, 1, 1]):
+                        out.append((old_lens, tail, k, oc, list(new_lens)))
+    return out
 
 
 SEND_SIZES = [0, 1, 2, 255, 256, 65535, 65536, (1 << 24) - 1, 1 << 24, (1 << 24) + 1]
@@ -235,6 +313,14 @@ def run(ctx):
     if top.got != [b"a", b"\x00\x00\x01x", b"WA\x04\x00"]:
         ctx.violation("C05:disabled-not-passthrough", "with framing disabled data is not passed through unchanged")
 
+    # a connection reset that arrives while a frame is being handed upward
+    rspecs = reset_specs(quick)
+    nreset = 0
+    for vs in ctx.pimap(check_reset_during_delivery, rspecs, chunksize=8):
+        nreset += 1
+        ctx.add_violations(vs)
+    ctx.coverage["reset_during_delivery_cases"] = nreset
+
     send_cases = [(n, en) for n in SEND_SIZES for en in (True, False)]
     nsend = 0
     for vs in ctx.pimap(check_send_star, send_cases):
@@ -263,6 +349,9 @@ def check_send_star(a):
 
 
 def replay(ctx, case):
+    if "reset_during_delivery" in case:
+        r = case["reset_during_delivery"]
+        return check_reset_during_delivery((r["old_frames"], r["old_tail"], r["reset_in_frame"], r["old_chunks"], r["new_frames"]))
     if "send_len" in case:
         return check_send(case["send_len"], case["enabled"])
     frames = [payload(i, n) for i, n in enumerate(case["frames"])]
